@@ -598,12 +598,22 @@ func c06Extended(c *core.Ctx, reg multicodec.Registry) {
 	if c.Thorough() {
 		exps = []uint{10, 12, 15, 16, 17, 20, 22, 23, 24, 25}
 	}
+	var sizes []int
 	for _, e := range exps {
 		for _, delta := range []int{-1, 0, 1} {
-			size := 1<<e + delta
-			for _, codecCode := range []uint64{0x71, 0x0129} {
+			sizes = append(sizes, 1<<e+delta)
+		}
+	}
+	// the default allocation budget of the DAG-CBOR decoder (a "natural" ceiling for anybody's buffer) and its neighbours
+	sizes = append(sizes, 10<<20-1, 10<<20, 10<<20+1)
+	for _, size := range sizes {
+		{
+			for _, codecCode := range []uint64{0x71, 0x0129, 0x55} {
 				var block []byte
-				if codecCode == 0x71 {
+				if codecCode == 0x55 {
+					block = bytes.Repeat([]byte{0x62}, size)
+					block[size/2] = 0x63
+				} else if codecCode == 0x71 {
 					n := size - 5
 					block = append([]byte{0x7a, byte(n >> 24), byte(n >> 16), byte(n >> 8), byte(n)}, bytes.Repeat([]byte{0x61}, n)...)
 				} else {
@@ -611,6 +621,24 @@ func c06Extended(c *core.Ctx, reg multicodec.Registry) {
 				}
 				sum, _ := mh.Sum(block, mh.SHA2_256, -1)
 				lnk := cidlink.Link{Cid: cid.NewCidV1(codecCode, sum)}
+				if codecCode == 0x55 || codecCode == 0x0129 && size < 8<<20 || codecCode == 0x71 && size-5 >= 1<<16 && size < 8<<20 { // (the hand-made DAG-CBOR head is the 4-byte form: canonical from 2^16 on; a single string near the decoders' allocation budget is refused by it)
+					// the intact block loads, and (raw) the node holds all of it
+					lsys := cidlink.LinkSystemUsingMulticodecRegistry(reg)
+					lsys.StorageReadOpener = func(linking.LinkContext, datamodel.Link) (io.Reader, error) {
+						return struct{ io.Reader }{bytes.NewReader(block)}, nil
+					}
+					n, err := lsys.Load(linking.LinkContext{}, lnk, basicnode.Prototype.Any)
+					caseID := fmt.Sprintf("c06.extended Load codec=0x%x size=%d intact", codecCode, size)
+					c.Count(caseID, false)
+					if err != nil {
+						c.Fail("C06/intact-block-refused", core.Replay{Kind: "oracle", Case: caseID, Impl: truncateStr(fmt.Sprint(err), 200), Expected: "loaded"})
+					} else if codecCode == 0x55 {
+						if got, _ := n.AsBytes(); !bytes.Equal(got, block) {
+							c.Fail("C06/loaded-node-is-not-the-block", core.Replay{Kind: "oracle", Case: caseID, Impl: fmt.Sprintf("%d bytes", len(got)), Expected: fmt.Sprintf("%d bytes", len(block)),
+								Detail: "a raw block loaded without error, but the node does not hold the bytes that hash to the link"})
+						}
+					}
+				}
 				for _, ext := range []byte{'x', ' ', '\n'} {
 					stored := append(append([]byte{}, block...), ext)
 					lsys := cidlink.LinkSystemUsingMulticodecRegistry(reg)
